@@ -62,7 +62,11 @@ struct Ctx {
   std::vector<bool> pubempty;
   int in_process = 0;
   bool mon_deps = true, mon_flag = true, mon_input = true, mon_sealed = true;
-  std::vector<std::thread> threads;       // deferred-commit threads spawned by processors (joined by the main thread)
+  // deferred-commit threads spawned by processors, joined by the main thread.  spawn_started is bumped before the
+  // std::thread is constructed (pthread_create is a scheduling point: the new thread may finish, and wait() return,
+  // before the constructor comes back)
+  std::vector<std::unique_ptr<std::thread>> threads;
+  size_t spawn_started = 0, joined = 0;
 };
 static Ctx* C = nullptr;
 
@@ -217,7 +221,8 @@ struct Proc : public GraphProcessor {
       gds.push_back(vertex().anonymous_emit(o.first));
       what.push_back({vd.emits[o.first], o.second});
     }
-    C->threads.emplace_back([cs = std::move(cs), what, gds, cl = std::move(closure)]() mutable {
+    C->spawn_started++;
+    std::unique_ptr<std::thread> thr(new std::thread([cs = std::move(cs), what, gds, cl = std::move(closure)]() mutable {
       verif::advance_time(0);
       for (size_t k = 0; k < cs.size(); ++k) {
         Committer<int64_t> c(std::move(cs[k]));
@@ -227,7 +232,8 @@ struct Proc : public GraphProcessor {
       cs.clear();
       C->in_process--;
       cl.done(0);
-    });
+    }));
+    C->threads.push_back(std::move(thr));
   }
 };
 
@@ -439,8 +445,11 @@ int main() {
         cl.wait();
         g_wait_returned = true;
         if (ctx.in_process != 0 || !exec.q.empty()) wait_ok = false;
-        for (auto& th : ctx.threads) th.join();
-        ctx.threads.clear();
+        while (ctx.joined < ctx.spawn_started) {
+          if (ctx.joined < ctx.threads.size()) { std::thread* t = ctx.threads[ctx.joined].get(); ctx.joined++; t->join(); }
+          else usleep(1);
+        }
+        ctx.threads.clear(); ctx.spawn_started = 0; ctx.joined = 0;
         stop = true;
       });
       for (int k = 0; k < workers; ++k)
